@@ -447,6 +447,37 @@ def check_swapbits(res, facts, tier):
                         rule.bad(key, "for (a, b, k) = (%d, %d, %d) result bit %d is %s instead of input bit %d" % (a, b, k, j, _bits(out.rows[j], (out.const >> j) & 1), src), fn.loc)
                         return
     rule.ok(key, "bit permutation verified for all 2^64 inputs x and %d windows (a < a+k <= b, b+k <= %d%s)" % (n_cases, limit, "" if tier == "thorough" else " plus top-of-word windows"), fn.loc)
+    # the same windows with the two positions passed in descending order: when swap_bits is not symmetric in (a, b),
+    # every caller has to order its arguments first
+    asym = None
+    for k in (1, 2, 3):
+        for a in (0, 1, 5):
+            for b in (a + k, a + k + 2, 2 * a + k + 7):
+                out = bv_eval(fn, b, a, k)
+                okp = not (isinstance(out, str) or out is None) and all(
+                    out.rows[j] == (1 << (j - a + b if a <= j < a + k else (j - b + a if b <= j < b + k else j))) and not (out.const >> j) & 1 for j in range(W))
+                if not okp and asym is None:
+                    asym = (b, a, k)
+    if asym is None:
+        rule.ok(key + "|symmetric", "the same permutation when the positions are passed in descending order (27 windows)", fn.loc)
+        return
+    allf = {f.id: f for f in facts.fns(unit="ws", crate="ark_poly")}
+    for f in allf.values():
+        if "::tests::" in f.id or not any((t["f"].get("name") or "") == "swap_bits" for _, t in f.calls()):
+            continue
+        scope = [f]
+        pid = f.id
+        while "::{closure#" in pid:
+            pid = pid.rsplit("::{closure#", 1)[0]
+            if pid in allf:
+                scope.append(allf[pid])
+        names = {(t["f"].get("name") or "") for g in scope for _, t in g.calls()}
+        ordered = "swap" in names or {"min", "max"} <= names
+        ckey = "ark_poly|swap_bits|caller %s" % f.id.rsplit("::", 2)[-2 if "{closure" in f.id else -1]
+        if ordered:
+            rule.ok(ckey, "swap_bits is not symmetric in its positions (wrong for (a, b, k) = %s); this caller orders them first" % (asym,), f.loc)
+        else:
+            rule.bad(ckey, "swap_bits is only right for positions in ascending order (wrong for (a, b, k) = %s) and this caller passes them as given, without ordering them" % (asym,), f.loc)
     res.note_evaluations = n_cases
 
 
@@ -547,6 +578,18 @@ def _short_ty(t):
     return re.sub(r"[A-Za-z_0-9]+::", "", t).replace("'a ", "")
 
 
+def _mentions(v, x):
+    if v == x or (isinstance(x, tuple) and isinstance(v, tuple) and len(v) >= 3 and v[0] == "arg" and x[0] == "arg" and v[1] == x[1]):
+        return True
+    return isinstance(v, (tuple, list)) and any(_mentions(c, x) for c in v)
+
+
+def _mentions_call(v, names):
+    if isinstance(v, tuple) and len(v) >= 2 and v[0] == "call" and v[1] in names:
+        return True
+    return isinstance(v, (tuple, list)) and any(_mentions_call(c, names) for c in v)
+
+
 def check_ops(res, facts):
     rule = res.rule("R-OPS", "operators defined through other operators compute the right combination", 14)
     for head, short in ((DENSE, "Dense"), (SPARSE, "Sparse"), (MVSP, "MvSparse")):
@@ -584,6 +627,12 @@ def check_ops(res, facts):
                 else:
                     want = C(nm, A(1), A(2))
                     ok = any(v == want for v in vals)
+                    # a second store that copies data of rhs into self is a shortcut arm: harmless for `+=` into an empty self,
+                    # but for `-=` the copy has to pass through a negation / subtraction
+                    raw = [v for v in vals if v != want and tshort == "SubAssign" and _mentions(v, A(2)) and not _mentions_call(v, ("neg", "sub", "neg_in_place", "sub_assign"))]
+                    if ok and raw:
+                        rule.bad(key, "a shortcut arm of `-=` stores %s (data of rhs, not negated) into self; expected %s on every arm" % ([show(v)[:80] for v in raw], show(want)), fn.loc)
+                        continue
                     (rule.ok if ok else rule.bad)(key, "*self = &*self %s rhs" % nm if ok else "compound assignment stores %s, expected %s" % ([show(v)[:80] for v in vals], show(want)), fn.loc)
 
 
